@@ -16,6 +16,7 @@ def noMallocS : CStmt → Bool
   | .free _ => false
   | .ite _ t e => noMallocL t && noMallocL e
   | .for_ _ _ _ b _ => noMallocL b
+  | .call (.mk _ _ body) _ => noMallocL body
   | _ => true
 def noMallocL : List CStmt → Bool
   | [] => true
@@ -175,6 +176,15 @@ theorem monS_eq : ∀ (s : CStmt) {c c' : CState V}, noMallocS s = true → AllS
       · simp only [pure, Except.pure, Except.ok.injEq] at he; subst he; exact h
       · simp only [pure, Except.pure, Except.ok.injEq] at he; subst he; exact h
       · cases he
+  | .call (.mk nm ps body) args, c, c', hn, h, he => by
+      simp only [noMallocS] at hn
+      simp only [execCS] at he ⊢
+      obtain ⟨⟨ci, cv⟩, hb, he⟩ := bind_ok he
+      obtain ⟨c1, h1, he⟩ := bind_ok he
+      simp only [hb, ok_bind]
+      obtain ⟨m1, m2⟩ := monL_eq body hn (c := { c with ints := ci, vals := cv }) h h1
+      obtain ⟨l1, l2⟩ := leaveC_mon m2 he
+      exact ⟨by simp only [m1, ok_bind]; exact l1, l2⟩
 theorem monL_eq : ∀ (ss : List CStmt) {c c' : CState V}, noMallocL ss = true → AllStack c →
     execCL false ss c = .ok c' → execCL true ss c = .ok c' ∧ AllStack c'
   | [], c, c', _, h, he => by
